@@ -5,7 +5,7 @@ ROOT="$(cd "$(dirname "${BASH_SOURCE[0]}")" && pwd)"
 export CARGO_NET_OFFLINE=true
 mkdir -p "$ROOT/work" "$ROOT/evidence"
 cp /repo/Cargo.lock "$ROOT/engine/Cargo.lock"
-(cd "$ROOT/engine" && cargo build --release -p checks --bins)
+(cd "$ROOT/engine" && cargo build --release --bins)
 if [ -d "$ROOT/fuzz" ] && [ -x "$ROOT/fuzz/build.sh" ]; then
   "$ROOT/fuzz/build.sh"
 fi
